@@ -5509,7 +5509,9 @@ class FlowIRConcrete(object):
         try:
             cast(List[str], self._flowir[FlowIR.FieldPlatforms]).append(platform)
             cast(Dict[str, Dict[str, str]], self._flowir[FlowIR.FieldEnvironments])[platform] = {}
-            cast(Dict[str, Dict[str, str]], self._flowir[FlowIR.FieldVariables])[platform] = {}
+            cast(Dict[str, Dict[str, str]], self._flowir[FlowIR.FieldVariables])[platform] = {
+                FlowIR.LabelGlobal: {}, FlowIR.LabelStages: {}
+            }
         except Exception as exc:
             raise experiment.model.errors.FlowIRInconsistency(
                 'Failed to add new platform "%s"' % platform, self._flowir, exc
@@ -6226,8 +6228,13 @@ class FlowIRConcrete(object):
         if platform not in self._flowir[FlowIR.FieldVariables]:
             self._flowir[FlowIR.FieldVariables][platform] = {}
 
+        # VV: the variables of a platform always have both scopes (queries expect them, a description that is loaded
+        #     from scratch gets them injected)
         if FlowIR.LabelGlobal not in self._flowir[FlowIR.FieldVariables][platform]:
             self._flowir[FlowIR.FieldVariables][platform][FlowIR.LabelGlobal] = {}
+
+        if FlowIR.LabelStages not in self._flowir[FlowIR.FieldVariables][platform]:
+            self._flowir[FlowIR.FieldVariables][platform][FlowIR.LabelStages] = {}
 
         self._flowir[FlowIR.FieldVariables][platform][FlowIR.LabelGlobal][variable] = value
 
@@ -6300,6 +6307,9 @@ class FlowIRConcrete(object):
             variables[platform] = {}
 
         variables = variables[platform]
+
+        if FlowIR.LabelGlobal not in variables:
+            variables[FlowIR.LabelGlobal] = {}
 
         if FlowIR.LabelStages not in variables:
             variables[FlowIR.LabelStages] = {}
